@@ -275,7 +275,7 @@ def run_case(case):
             world.net.event_hooks.clear()
             info["holders"] = sum(1 for t in tasks if not t.done())
             if case["final"] == "close":
-                await asyncio.wait_for(server.close(), 1e4)
+                await common.close_server(server, viol)
                 await asyncio.sleep(5.0)
                 for t in tasks:
                     t.cancel()
@@ -288,7 +288,7 @@ def run_case(case):
                     p.vanish("rst")
                 await asyncio.sleep(30.0 + (idle or 0) * 2)
                 await probe()
-                await asyncio.wait_for(server.close(), 1e4)
+                await common.close_server(server, viol)
             await asyncio.sleep(1.0)
 
         world.run(main())
